@@ -257,7 +257,10 @@ func (c *Client) connect() error {
 				val, err := stanza.NextPacket(c.transport.GetDecoder())
 				if err != nil {
 					c.ErrorHandler(err)
-					c.disconnected(state)
+					// No session was established: record the state, but do not announce a
+					// disconnection. The caller of connect gets the error; an event here would
+					// make a StreamManager start a second, concurrent reconnection loop.
+					c.CurrentState.setState(StateDisconnected)
 					return
 				}
 				switch val.(type) {
